@@ -92,7 +92,10 @@ func NewGoroutineTaskManager(recordLen int, minimumRequiredPerCore int, cpuNum i
 }
 
 func (m *GoroutineTaskManager) HasError() bool {
-	return m.err != nil
+	m.grTaskMutex.Lock()
+	hasError := m.err != nil
+	m.grTaskMutex.Unlock()
+	return hasError
 }
 
 func (m *GoroutineTaskManager) SetError(e error) {
